@@ -214,6 +214,61 @@ func evalOracles(sc *Scenario, all []obs, rec *Rec) {
 		}
 	}
 
+	// C19, inbound: every message is offered to the all-types handlers and then to the handlers of its
+	// own type, in registration order; within one pool a handler answering false ends that pool's round
+	type inReg struct {
+		id   int
+		flag bool
+	}
+	regIn := map[string][]inReg{}
+	noteReg := func(o *Op) {
+		switch o.Kind {
+		case "REGIN":
+			regIn[o.Mt] = append(regIn[o.Mt], inReg{o.ID, o.Flag})
+		case "UNREGIN":
+			l := regIn[o.Mt]
+			for k := range l {
+				if l[k].id == o.ID {
+					regIn[o.Mt] = append(append([]inReg{}, l[:k]...), l[k+1:]...)
+					break
+				}
+			}
+		}
+	}
+	for k := range sc.Pre {
+		noteReg(&sc.Pre[k])
+	}
+	removals := false // what removing a handler does is outside the property: such scenarios are not judged here
+	for _, o := range append(append([]Op{}, sc.Pre...), sc.Ops...) {
+		if o.Kind == "UNREGIN" {
+			removals = true
+		}
+	}
+	checkDispatch := func(i int, op *Op, o *obs) {
+		mt, ok := fget(tokenize(op.Data), "35")
+		if !ok || removals {
+			return
+		}
+		var want []string
+		for _, pool := range []string{"ALL", mt} {
+			for _, r := range regIn[pool] {
+				want = append(want, "I"+strconv.Itoa(r.id))
+				if !r.flag {
+					break
+				}
+			}
+		}
+		var got []string
+		for _, it := range o.Items {
+			if strings.HasPrefix(it, "I") {
+				got = append(got, it)
+			}
+		}
+		if strings.Join(got, " ") != strings.Join(want, " ") {
+			setFail(rec, "C19", fmt.Sprintf("op %d (%s): the inbound message of type %q was offered to the application's handlers [%s], expected [%s] (all-types handlers, then the handlers of its type)", i, op.Label, mt, strings.Join(got, " "), strings.Join(want, " ")))
+		}
+	}
+
 	acceptableBefore := false
 	c07Types := func(i int, op *Op, types []string, isLogged bool) {
 		for k, t := range types {
@@ -263,6 +318,10 @@ func evalOracles(sc *Scenario, all []obs, rec *Rec) {
 		}
 		checkWires(i, &o, isResend)
 		checkC19(i, &o)
+		if op.Kind == "IN" {
+			checkDispatch(i, op, &o)
+		}
+		noteReg(op)
 		if isResend && before.State == 1 {
 			checkBatchStops(i, &o)
 		}
